@@ -1557,6 +1557,14 @@ class GateauxDerivativeRuleset(GenericDerivativeRuleset):
 
         # FIXME: Handle other coefficient derivatives: oprimes =
         # self._cd.get(o)
+        if self._cd.get(o) is not None:  # type: ignore
+            # The user supplied d(o)/dw, but differentiating grad(o)
+            # w.r.t. w through that relation is not implemented:
+            # refuse instead of silently assuming d(grad(o))/dw = 0.
+            raise NotImplementedError(
+                "Currently no support for coefficient_derivatives of a "
+                "coefficient that appears under grad."
+            )
 
         if 0:
             oprimes = self._cd.get(o)
